@@ -16,6 +16,125 @@ def pick_plain(ctx, rng=None):
     return rng.choice(plain)
 
 
+def tla_seq(strs):
+    return "<<" + ", ".join(Q(x) for x in strs) + ">>"
+
+
+class Roles:
+    """Concrete texts for abstract roles, chosen from the shipped tables by predicate (never by name)."""
+
+    def __init__(self, ctx, rng):
+        t = ctx.tables
+        self.t, self.rng = t, rng
+        active = set(t["active"])
+        low = {x.lower() for x in t["active"] + t["exceptions"]}
+        self.plain = [x for x in t["active"] if not x.endswith("-only") and not x.endswith("-or-later") and x.lower() + "-or-later" not in low]
+        pos = {}
+        for fi, fam in enumerate(t["ranges"]):
+            for si, step in enumerate(fam):
+                for x in step:
+                    pos.setdefault(x, []).append((fi, si))
+        self.pos = pos
+        # families usable as roles: >= 2 steps, every member listed, at one position, not an inert -or-later alias
+        self.fams = []
+        for fi, fam in enumerate(t["ranges"]):
+            steps = [[x for x in st if len(pos[x]) == 1 and not x.endswith("-or-later") and (x in active or x in t["deprecated"])] for st in fam]
+            steps = [st for st in steps if st]
+            if len(steps) >= 2 and all(len(pos[x]) == 1 for st in fam for x in st):
+                self.fams.append(steps)
+        self.unranged = [x for x in self.plain if x not in pos]
+
+    def suffixable(self, x):
+        return x in self.t["active"] and not x.endswith("-only") and not x.endswith("-or-later")
+
+    def family(self, min_steps=2):
+        c = [f for f in self.fams if len(f) >= min_steps]
+        return self.rng.choice(c)
+
+    def tree_roles(self, selection=None):
+        """returns (leaf texts by kind, universe)"""
+        r = self.rng
+        fam = self.family(3) if r.random() < 0.7 else self.family(2)
+        i1 = r.randrange(0, len(fam) - 1)
+        i2 = r.randrange(i1 + 1, len(fam))
+        v1, v2 = r.choice(fam[i1]), r.choice(fam[i2])
+        lowest = r.choice(fam[r.randrange(0, i1 + 1)])
+        exc = r.choice(self.t["exceptions"])
+        p1, p2, p3 = r.sample(self.unranged, 3)
+        name = r.choice(["a", "x-1", "1.0", "MIT", "Foo.bar"])
+        doc = r.choice(["d", "spdx-tool-1.2", "X"])
+        sfx = [x for st in fam for x in st if self.suffixable(x)]
+        kinds = {
+            "plain": p1,
+            "fam": v1,
+            "famplus": v2 + "+",
+            "orlater": (r.choice(sfx) + "-or-later") if sfx else v1 + "+",
+            "only": (r.choice(sfx) + "-only") if sfx else v2,
+            "withexc": p2 + " WITH " + exc,
+            "ref": "LicenseRef-" + name,
+            "docref": "DocumentRef-" + doc + ":LicenseRef-" + name,
+        }
+        # '+' on a deprecated id with a listed -or-later twin is folded by the scanner: still a fine text
+        universe = [v1, lowest + "+", p1 if r.random() < 0.5 else p3, "LicenseRef-" + name,
+                    r.choice([p2 + " WITH " + exc, "DocumentRef-" + doc + ":LicenseRef-" + name, v2, p2])]
+        if selection is None:
+            ranged = r.choice(["fam", "famplus", "orlater", "only"])
+            refk = r.choice(["ref", "docref"])
+            rest = [k for k in kinds if k not in (ranged, refk)]
+            selection = [ranged, refk] + r.sample(rest, 2)
+        return [kinds[k] for k in selection], universe, selection
+
+
+FIXED_SELECTIONS = [["fam", "ref", "plain", "famplus"], ["orlater", "docref", "withexc", "only"], ["famplus", "ref", "only", "withexc"]]
+
+
+def run_tree(ctx, name, rng, leaves, selection=None):
+    roles = Roles(ctx, rng)
+    texts, universe, sel = roles.tree_roles(selection)
+    ctx.write_params("MC_Tree_P", {"MaxLeaves": str(leaves), "LeafTexts": tla_seq(texts), "Universe": tla_seq(universe)})
+    ctx.notes.append("%s: leaves<=%d roles=%s texts=%s universe=%s" % (name, leaves, sel, texts, universe))
+    r = ctx.run_tlc(name, "MC_Tree", "MC_Tree", timeout=3000)
+    if r["violated"]:
+        # a model-level failure with Dev = {}: if it stems from the shipped tables the replay shows it on the real code too
+        ctx.notes.append("%s: TLC reports model-level invariant %s violated" % (name, r["violated"]))
+        ctx.model_violation = r["violated"]
+    return r
+
+
+def tree_family(ctx, relevant, flavor, rule):
+    rng = random.Random(ctx.seed)
+    ctx.model_violation = None
+    if ctx.tier == "thorough":
+        run_tree(ctx, "tree5", rng, 5, FIXED_SELECTIONS[0])
+        run_tree(ctx, "tree4b", rng, 4, FIXED_SELECTIONS[1])
+        run_tree(ctx, "tree4c", rng, 4, FIXED_SELECTIONS[2])
+        run_tree(ctx, "tree4s", rng, 4)
+        ctx.drive("trace", flavor, 1500, leaves=12)
+    else:
+        run_tree(ctx, "tree4", rng, 4)
+        ctx.drive("trace", flavor, 300, leaves=10)
+    ctx.validate_trace("trace")
+    if ctx.model_violation and not [m for m in ctx.mismatches if m["what"] in relevant]:
+        raise Infra("model-level invariant %s failed but the real code agrees with the model's predictions: specification problem" % ctx.model_violation)
+    return finish(ctx, relevant=relevant, rule=rule)
+
+
+def c01(ctx):
+    return tree_family(ctx, {"verdict", "non-monotone"}, "sat",
+                       "every expression tree up to the leaf bound over 4 role texts from the shipped tables x every non-empty subset of a "
+                       "5-entry allowed universe (TLC: parse/precedence, OR-of-ANDs = Boolean evaluation, operational = declarative matcher); "
+                       "each (text, list) pair replayed through the real Satisfies in two renderings; random larger trees over the whole "
+                       "tables trace-validated; non-trivial = the model predicts 'satisfied' for at least one subset")
+
+
+def c06(ctx):
+    return tree_family(ctx, {"extract", "extract-error", "extract-invented", "extract-missing", "extract-duplicate",
+                             "extract-roundtrip", "extract-self-satisfy"}, "extract",
+                       "every expression tree up to the leaf bound (TLC: the expansion keeps every leaf); the real ExtractLicenses output is "
+                       "compared term by term with the model's distinct terms, each returned string is re-extracted and the returned list is "
+                       "used as allowed list; non-trivial = more than one distinct term")
+
+
 # --------------------------------------------------------------------------- C05
 def c05(ctx):
     rng = random.Random(ctx.seed)
@@ -38,7 +157,7 @@ def c05(ctx):
                        "non-trivial = accepted by the grammar")
 
 
-CHECKS = {"C05": c05}
+CHECKS = {"C01": c01, "C05": c05, "C06": c06}
 
 MC = "model_checking"
 INFO = {
